@@ -104,15 +104,15 @@ theorem C20_cex_query_cache :
      (run { Quirks.asIs with exprTableLeak := false } cexSchema lifo ops).h.exprs = 0) := by
   decide
 
-/-- **C20_cex_index_entries** (test on a concrete witness = finding F-C20-2): two instances are created, related,
+/-- **C20_cex_index_entries** (test on a concrete witness = finding F-C20-2, repaired by c18b52a): two instances are created, related,
 dropped, collected and swept: `_instance_index` and `_relation_index` keep their entries; none with the repair. -/
 theorem C20_cex_index_entries :
     let ops := [Op.new 0 0 0, .new 1 0 1, .rel 0 0 1, .drop 0, .drop 1, .sweep]
-    ((run Quirks.asIs cexSchema lifo ops).g.nodes.length = 0 ∧
-     (run Quirks.asIs cexSchema lifo ops).g.instIdx.length = 2 ∧
-     (run Quirks.asIs cexSchema lifo ops).g.relIdx.length = 1) ∧
-    ((run Quirks.c14Fixed cexSchema lifo ops).g.instIdx.length = 0 ∧
-     (run Quirks.c14Fixed cexSchema lifo ops).g.relIdx.length = 0) := by
+    ((run Quirks.original cexSchema lifo ops).g.nodes.length = 0 ∧
+     (run Quirks.original cexSchema lifo ops).g.instIdx.length = 2 ∧
+     (run Quirks.original cexSchema lifo ops).g.relIdx.length = 1) ∧
+    ((run Quirks.asIs cexSchema lifo ops).g.instIdx.length = 0 ∧
+     (run Quirks.asIs cexSchema lifo ops).g.relIdx.length = 0) := by
   decide
 
 /-! Non-vacuity: a non-trivial state meeting the hypotheses of `C20_registry_bounded` (instances related, one of
@@ -137,7 +137,7 @@ example :
     let g1 := (addNode lifo (SG.empty lifo) 0 0 7).1
     let w0 := (addNode lifo (SG.empty lifo) 0 0 7).2
     let g2 := (addNode lifo g1 1 0 7).1
-    lookup (removeNode Quirks.c14Fixed lifo g2 w0) 7 = some ⟨1, 0, 1, 7⟩ ∧
+    lookup (removeNode Quirks.asIs lifo g2 w0) 7 = some ⟨1, 0, 1, 7⟩ ∧
     lookup ({ g2 with instIdx := g2.instIdx.filter (fun kw => kw.1 != w0.pid) } : SG (List Nat × Nat)) 7 = none := by
   decide
 
